@@ -50,10 +50,16 @@ def work (E : Env) : Re → St → Nat
 def rangesDisjoint (a b : List (Nat × Nat)) : Bool :=
   a.all fun r1 => b.all fun r2 => decide (r1.2 < r2.1) || decide (r2.2 < r1.1)
 
-/-- an over-approximation of the first character of any derivation, for expressions that must consume one -/
+/-- a pure zero-width assertion: every derivation is the start state itself -/
+def isAssert : Re → Bool
+  | .eps | .look .. | .atEnd | .wordB => true
+  | _ => false
+
+/-- an over-approximation of the first character of any derivation, for expressions that must consume one
+(a leading zero-width assertion — look-around, `\b`, `$` — is skipped) -/
 def firstSet : Re → Option (List (Nat × Nat))
   | .set S => some S.ranges
-  | .cat a _ => if 1 ≤ minW a then firstSet a else none
+  | .cat a b => if 1 ≤ minW a then firstSet a else if isAssert a then firstSet b else none
   | .alt a b => match firstSet a, firstSet b with
     | some x, some y => some (x ++ y)
     | _, _ => none
